@@ -273,7 +273,7 @@ def _cases():
         for usechroot, setuid, setgid in itertools.product((False, True), repeat=3):
             for tls in ((False,) if mode == "security" else (False, True)):
                 for detach in ((False,) if mode == "security" else (False, True)):
-                    for euid in (0, 1000):
+                    for euid in (0, 1000, UID):  # root, some other user, already the target user (effective id only)
                         out.append((mode, usechroot, setuid, setgid, tls, detach, euid, None, "elsewhere"))
     # every spelling of a boolean the configuration format accepts, and every place start-up may be launched from
     for setuid, setgid in itertools.product((False, True), repeat=2):
